@@ -61,26 +61,15 @@ pub fn gen_step(s: &mut Incent, rng: &mut Rng, ctx: &mut Ctx) -> Step {
         return st;
     }
     let o = s.obs.clone();
-    // scripted micro-history: with a flow that still runs for more than 115 epochs and a staker present,
-    // let more epochs pass than the claim cap covers, then claim in each of the following epochs
-    if s.cfg.allow.long_flows && rng.chance(1, 40) {
+    // scripted micro-history: with a flow that still runs for more than 125 epochs and a staker present,
+    // let more epochs pass than one claim covers, then everybody claims in each of the following epochs
+    if s.cfg.allow.long_flows && rng.chance(1, 30) {
         let e = o.epoch;
         let staker = (0..s.cfg.n_users).find(|i| !o.open[*i].is_empty());
-        let long_flow = o.flows.iter().any(|f| f.end_latest() > e + 115 && f.start <= e + 1);
+        let long_flow = o.flows.iter().any(|f| f.end_latest() > e + 125 && f.start <= e + 1);
         if let (Some(actor), true) = (staker, long_flow) {
             ctx.probe("script_claim_gap_beyond_cap_then_series");
-            let mut q = vec![];
-            q.push(Step { actor, op: Op::NewEpoch { n: rng.range(101, 104) as u32 }, adv_s: 0, fault: Fault::None });
-            q.push(Step { actor, op: Op::Snapshot, adv_s: 0, fault: Fault::None });
-            q.push(Step { actor, op: Op::Claim, adv_s: 0, fault: Fault::None });
-            for _ in 0..rng.range(9, 14) {
-                q.push(Step { actor, op: Op::NewEpoch { n: 1 }, adv_s: 0, fault: Fault::None });
-                q.push(Step { actor, op: Op::Snapshot, adv_s: 0, fault: Fault::None });
-                q.push(Step { actor, op: Op::Claim, adv_s: 0, fault: Fault::None });
-            }
-            q.reverse();
-            s.script = q;
-            return s.script.pop().unwrap();
+            return Step { actor, op: Op::ClaimMarathon { gap: rng.range(101, 106) as u32, rounds: rng.range(12, 24) as u32 }, adv_s: 0, fault: Fault::None };
         }
     }
     let na = s.na();
@@ -619,6 +608,12 @@ pub fn simplify(step: &Step) -> Vec<Step> {
                 for a in shr(*declared) {
                     push(Op::ExpandFlow { flow: flow.clone(), asset: *asset, declared: a, sent: a, end: *end }, step.adv_s, step.fault);
                 }
+            }
+        }
+        Op::ClaimMarathon { gap, rounds } => {
+            if *rounds > 1 {
+                push(Op::ClaimMarathon { gap: *gap, rounds: rounds / 2 }, step.adv_s, step.fault);
+                push(Op::ClaimMarathon { gap: *gap, rounds: rounds - 1 }, step.adv_s, step.fault);
             }
         }
         Op::NewEpoch { n } => {
